@@ -219,6 +219,74 @@ Definition is_empty (v : val) : bool :=
   | _ => false
   end.
 
+(* ------------------------------------------------------------------------------------------ zero values *)
+Fixpoint zero_val (T : table) (fuel : nat) (t : ty) : val :=
+  match fuel with
+  | O => VNil
+  | S f =>
+    match t with
+    | TBool => VBool false
+    | TInt => VInt 0
+    | TFloat => VFloat "0"
+    | TStr => VStr ""
+    | TNamed n => match find_struct T n with
+                  | Some sd => VStruct (map (fun fd => zero_val T f (f_ty fd)) (s_fields sd))
+                  | None => VNil
+                  end
+    | TOpaque n => VOpaque n "0"
+    | _ => VNil
+    end
+  end.
+
+(* ------------------------------------------------------------------------ time.Duration.String (Go 1.18) *)
+(* digits of a non-negative number, no leading zeros, "0" for zero *)
+Definition N_to_string (n : N) : string := NilZero.string_of_uint (N.to_uint n).
+(* fractional part: w = value, prec digits; trailing zeros (and an all-zero fraction) are dropped *)
+Fixpoint frac_digits (prec : nat) (w : N) (started : bool) (acc : string) : string * N :=
+  match prec with
+  | O => (acc, w)
+  | S p =>
+    let d := N.modulo w 10 in
+    let started' := (started || negb (N.eqb d 0))%bool in
+    let acc' := if started' then String (ascii_of_N (48 + d)) acc else acc in
+    frac_digits p (N.div w 10) started' acc'
+  end.
+Definition fmt_frac (w : N) (prec : nat) : string * N :=
+  let '(digits, rest) := frac_digits prec w false "" in
+  ((match digits with EmptyString => "" | _ => String "." digits end), rest).
+Definition fmt_duration (d : Z) : string :=
+  if Z.eqb d 0 then "0s" else
+  let neg := Z.ltb d 0 in
+  let u := Z.to_N (Z.abs d) in
+  let body :=
+    if N.ltb u 1000000000 then
+      (* less than a second: ns, us (micro sign U+00B5 = C2 B5), ms *)
+      if N.ltb u 1000 then N_to_string u ++ "ns"
+      else if N.ltb u 1000000 then
+        let '(f, r) := fmt_frac u 3 in N_to_string r ++ f ++ String (ascii_of_N 194) (String (ascii_of_N 181) "s")
+      else let '(f, r) := fmt_frac u 6 in N_to_string r ++ f ++ "ms"
+    else
+      let '(f, secs) := fmt_frac u 9 in
+      let s := N.modulo secs 60 in
+      let mins := N.div secs 60 in
+      let spart := N_to_string s ++ f ++ "s" in
+      if N.eqb mins 0 then spart
+      else
+        let m := N.modulo mins 60 in
+        let h := N.div mins 60 in
+        let mpart := N_to_string m ++ "m" ++ spart in
+        if N.eqb h 0 then mpart else N_to_string h ++ "h" ++ mpart in
+  if neg then "-" ++ body else body.
+
+Definition string_to_Z (s : string) : option Z :=
+  match NilZero.int_of_string s with Some i => Some (Z.of_int i) | None => None end.
+
+(* the JSON image of an opaque leaf *)
+Definition opaque_json (n : string) (payload : string) : json :=
+  if String.eqb n "api.DurationConfig"
+  then match string_to_Z payload with Some z => JStr (fmt_duration z) | None => JOpaque n payload end
+  else JOpaque n payload.
+
 (* --------------------------------------------------------------------------------------------- encode *)
 Definition splice (name : string) (embed : bool) (j : json) : list (string * json) :=
   match embed, j with
@@ -254,9 +322,15 @@ Fixpoint encode (T : table) (fuel : nat) (t : ty) (v : val) {struct fuel} : json
     | TAny, VJson j => j
     | TRaw, VNil => JNull
     | TRaw, VJson j => j
-    | TOpaque n, VOpaque _ p => JOpaque n p
-    | TOpaque n, VInt z => JOpaque n (Z_to_string z)
+    | TOpaque n, VOpaque c p => if String.eqb c "text" then JStr p else opaque_json n p   (* "text": payload is the printed form (as reloaded) *)
+    | TOpaque n, VInt z => opaque_json n (Z_to_string z)
     | TOpaque n, VNil => JNull
+    | TNamed n, VJson j =>
+      (* a struct with a marshaler the model has no rule for, carried as the JSON the real marshaler printed *)
+      match find_struct T n with
+      | Some sd => match s_hook sd with HkCustom => j | _ => JFuel (vsecrets v) end
+      | None => JFuel (vsecrets v)
+      end
     | TNamed n, VStruct vs =>
       match find_struct T n with
       | None => JFuel (vsecrets v)
@@ -323,6 +397,10 @@ Fixpoint json_eqb (a b : json) {struct a} : bool :=
   | JSecret x, JStr y => String.eqb x y
   | JStr x, JSecret y => String.eqb x y
   | JOpaque _ x, JOpaque _ y => String.eqb x y
+  | JOpaque _ x, JStr y => String.eqb x y
+  | JStr x, JOpaque _ y => String.eqb x y
+  | JOpaque _ x, JNum y => String.eqb x y
+  | JNum x, JOpaque _ y => String.eqb x y
   | JArr l, JArr m =>
     (fix go (l m : list json) : bool :=
        match l, m with
@@ -338,4 +416,113 @@ Fixpoint json_eqb (a b : json) {struct a} : bool :=
        | _, _ => false
        end) l m
   | _, _ => false
+  end.
+
+
+(* --------------------------------------------------------------------------------------------- decode *)
+(* Type-directed model of encoding/json Unmarshal for the hook-free fragment (plain structs, pointers, slices,
+   string-keyed maps, primitives, RawMessage / interface{} carried as JSON, opaque leaves carried as text) and for
+   the shadow-field hooks whose unmarshal side is a list of plain derivations (UkShadow _ _ 0).
+   - object members are matched to fields case-insensitively; the LAST matching member wins (as in Go);
+   - null leaves a non-nilable target at its zero value;
+   - members that match no field are ignored;
+   - maps keep the member order of the document (Go sorts keys when it marshals: documents produced by Marshal are
+     already sorted and duplicate-free, which is what the round-trip theorem assumes);
+   - interface{} positions keep the JSON as is (assumes canonical float64 literals and sorted keys). *)
+Fixpoint lookup_member (kvs : list (string * json)) (name : string) (acc : option json) : option json :=
+  match kvs with
+  | [] => acc
+  | (k, x) :: kvs' => lookup_member kvs' name (if key_eq k name then Some x else acc)
+  end.
+
+Definition option_bind {A B} (o : option A) (f : A -> option B) : option B :=
+  match o with Some x => f x | None => None end.
+
+Fixpoint sequence {A} (l : list (option A)) : option (list A) :=
+  match l with
+  | [] => Some []
+  | o :: l' => option_bind o (fun x => option_bind (sequence l') (fun r => Some (x :: r)))
+  end.
+
+Definition call_unmarshal_fn (f : string) (x : val) : val :=
+  if String.eqb f "configToMetadata" then
+    (* *MetadataConfig -> api.Metadata: the string-valued entries of filter_metadata["mosn.lb"]; never nil *)
+    match x with
+    | VRef _ [(_, VStruct [VStruct [VRef _ es]])] =>
+      VRef 0 (flat_map (fun kv : string * val => match snd kv with VJson (JStr s) => [(fst kv, VStr s)] | _ => [] end) es)
+    | _ => VRef 0 []
+    end
+  else if String.eqb f "time.Duration" then x
+  else if String.eqb f "uint64" then x
+  else VOpaque "call" f.
+
+Fixpoint huneval (T : table) (t : ty) (v : val) (e : hexpr) : val :=
+  match e with
+  | HPath p => match vget T t v p with Some (_, x) => x | None => VNil end
+  | HNilE => VNil
+  | HCall f e' => call_unmarshal_fn f (huneval T t v e')
+  end.
+Definition run_derive (T : table) (t : ty) (v : val) (l : list hassign) : val :=
+  fold_left (fun acc a => vset T t acc (fst a) (huneval T t acc (snd a))) l v.
+
+Fixpoint decode (T : table) (fuel : nat) (t : ty) (j : json) {struct fuel} : option val :=
+  match fuel with
+  | O => None
+  | S fuel' =>
+    match t, j with
+    | TBool, JBool b => Some (VBool b)
+    | TBool, JNull => Some (VBool false)
+    | TInt, JNum s => option_bind (string_to_Z s) (fun z => Some (VInt z))
+    | TInt, JNull => Some (VInt 0)
+    | TFloat, JNum s => Some (VFloat s)
+    | TFloat, JNull => Some (VFloat "0")
+    | TStr, JStr s => Some (VStr s)
+    | TStr, JSecret s => Some (VSecret s)
+    | TStr, JNull => Some (VStr "")
+    | TPtr _, JNull => Some VNil
+    | TPtr t', _ => option_bind (decode T fuel' t' j) (fun x => Some (VRef 0 [("", x)]))
+    | TSlice _, JNull => Some VNil
+    | TSlice t', JArr l => option_bind (sequence (map (decode T fuel' t') l)) (fun xs => Some (VRef 0 (map (fun x => ("", x)) xs)))
+    | TMap _, JNull => Some VNil
+    | TMap t', JObj kvs =>
+      option_bind (sequence (map (fun kv => option_bind (decode T fuel' t' (snd kv)) (fun x => Some (fst kv, x))) kvs))
+                  (fun es => Some (VRef 0 es))
+    | TAny, JNull => Some VNil
+    | TAny, _ => Some (VJson j)
+    | TRaw, _ => Some (VJson j)
+    | TOpaque n, JNull => Some (VOpaque "opaque" "0")
+    | TOpaque n, JStr s => Some (VOpaque "text" s)
+    | TOpaque n, JOpaque _ s => Some (VOpaque "opaque" s)
+    | TNamed n, _ =>
+      match find_struct T n with
+      | None => None
+      | Some sd =>
+        match s_hook sd, s_unhook sd with
+        | HkNone, UkNone =>
+          match j with
+          | JNull => Some (zero_val T fuel t)
+          | JObj kvs =>
+            option_bind
+              (sequence (map (fun fd =>
+                                if f_skip fd then Some (zero_val T fuel' (f_ty fd))
+                                else match lookup_member kvs (f_json fd) None with
+                                     | Some x => decode T fuel' (f_ty fd) x
+                                     | None => Some (zero_val T fuel' (f_ty fd))
+                                     end) (s_fields sd)))
+              (fun vs => Some (VStruct vs))
+          | _ => None
+          end
+        | HkShadow _ _, UkShadow tgt derive O =>
+          (* json.Unmarshal(b, &recv.tgt); derive... *)
+          let z := zero_val T fuel t in
+          match vget T t z tgt with
+          | Some (t2, _) =>
+            option_bind (decode T fuel' t2 j) (fun sub => Some (run_derive T t (vset T t z tgt sub) derive))
+          | None => None
+          end
+        | _, _ => None
+        end
+      end
+    | _, _ => None
+    end
   end.
